@@ -7,7 +7,7 @@ from dali.address import GearBroadcast, GearGroup, GearShort
 from dali.gear import colour
 from dali.gear.sequences import QueryDT8ColourValue, SetDT8ColourValueTc, SetDT8TcLimit
 
-from sim import busim, plans
+from sim import busim, drvsim, plans
 from sim.core import EventLog, Violation
 from sim.runner import add_violation, new_result
 
@@ -28,7 +28,7 @@ ASSUMPTIONS = [
 ]
 COMPONENTS = {"real": ["dali.gear.sequences.*", "dali.gear.colour command classes / selector enums"],
               "stub": ["bus and DT8 control gear (sim/busim.py)", "driver"]}
-PROBES = ["tc-edge-value", "msb-mask", "answer-dropped-msb", "answer-dropped-lsb", "answer-garbled", "bad-argument",
+PROBES = ["stacked-tridonic", "stacked-luba", "stacked-sci", "tc-edge-value", "msb-mask", "answer-dropped-msb", "answer-dropped-lsb", "answer-garbled", "bad-argument",
           "group-destination", "broadcast-destination", "limit-stored", "stale-dtr"]
 
 EDGES = [0, 1, 255, 256, 257, 0x00FF, 0xFF00, 0x7FFF, 0x8000, 65534, 65535]
@@ -61,7 +61,10 @@ def gen_plan(seed, tier="quick"):
             plan["fault"] = [r.randrange(0, 4), r.choice(["drop", "garble"])]
     elif kind == "limit":
         plan["selector"] = r.choice([0, 1, 2, 3])
-    elif kind == "badarg":
+    if seed % 40 == 17 and kind != "badarg":
+        plan["fault"] = None
+        plan["transport"] = ("tridonic", "luba", "sci")[(seed // 40) % 3]
+    if kind == "badarg":
         plan["bad"] = r.choice(["tc-65536", "tc-negative", "tc-huge", "tc-float", "tc-none", "tc-str", "query-int",
                                 "query-str", "limit-tc-65536"])
     return plan
@@ -108,6 +111,17 @@ def run_plan(plan):
     tc = plan["tc"]
     faults = {plan["fault"][0]: plan["fault"][1]} if plan["fault"] else {}
     sr = None
+    transport = plan.get("transport")
+
+    def run(gen_factory, **kw):
+        nonlocal log
+        if transport:
+            sr_, rr_ = drvsim.run_stacked(transport, plan["seed"], units, gen_factory)
+            log = rr_.world.log
+            bus.t_us = int(rr_.vtime * 1e6)
+            probes["stacked-" + transport] = 1
+            return sr_
+        return busim.run_sequence(gen_factory(), bus, log=log, **kw)
     if kind == "badarg":
         bad = plan["bad"]
         arg = {"tc-65536": 65536, "tc-negative": -1, "tc-huge": 1 << 40, "tc-float": 300.5, "tc-none": None,
@@ -130,7 +144,7 @@ def run_plan(plan):
         elif sr.steps > 0:
             V("bad-argument-rejected-late", "%s: %d commands had been sent before %r" % (bad, sr.steps, sr.exc), site=bad)
     elif kind == "set":
-        sr = busim.run_sequence(SetDT8ColourValueTc(dest, tc), bus, cap=50, log=log)
+        sr = run(lambda: SetDT8ColourValueTc(dest, tc), cap=50)
         if sr.status != "return":
             V("sequence-failed", "SetDT8ColourValueTc(%s, %d): %s %r" % (dk, tc, sr.status, sr.exc), site=dk)
         else:
@@ -148,7 +162,7 @@ def run_plan(plan):
                     break
     elif kind == "limit":
         sel = plan["selector"]
-        sr = busim.run_sequence(SetDT8TcLimit(dest, sel, tc), bus, cap=50, log=log)
+        sr = run(lambda: SetDT8TcLimit(dest, sel, tc), cap=50)
         if sr.status != "return":
             V("sequence-failed", "SetDT8TcLimit(%s, %d, %d): %s %r" % (dk, sel, tc, sr.status, sr.exc), site=dk)
         else:
@@ -165,7 +179,7 @@ def run_plan(plan):
     else:
         sel = colour.QueryColourValueDTR(plan["selector"])
         stored = t.colour_values.get(sel.value)
-        sr = busim.run_sequence(QueryDT8ColourValue(dest, sel), bus, answer_faults=faults, cap=50, log=log)
+        sr = run(lambda: QueryDT8ColourValue(dest, sel), answer_faults=faults, cap=50)
         fired = {c[0]: c[4] for c in sr.commands if c[4]}
         if stored is None or (stored >> 8) == 0xFF or 2 in fired or 3 in fired:
             exp = None
@@ -193,7 +207,7 @@ def run_plan(plan):
     for v in vs:
         add_violation(res, v)
     res["digest"] = log.digest()
-    res["shape"] = log.digest()[:16]
+    res["shape"] = log.shape() if transport else log.digest()[:16]
     res["events"] = len(log)
     res["vtime_s"] = bus.t_us * 1e-6
     res["nontrivial"] = bool(sr) and sr.steps >= 3
@@ -202,7 +216,7 @@ def run_plan(plan):
         res["faults"] = {"answer-" + c[4]: 1 for c in sr.commands if c[4]}
     if res["violations"]:
         res["plan"] = plan
-    res["sample"] = {"seed": plan["seed"], "kind": kind, "dest": dk, "tc": tc, "fault": plan["fault"],
+    res["sample"] = {"seed": plan["seed"], "transport": transport or "direct", "kind": kind, "dest": dk, "tc": tc, "fault": plan["fault"],
                      "selector": plan.get("selector"), "status": sr.status if sr else None,
                      "commands": [(str(c[1]), c[3]) for c in (sr.commands if sr else [])[:6]]}
     return res
@@ -213,6 +227,10 @@ def run_seed(seed, tier):
 
 
 def shrink(plan):
+    if plan.get("transport"):
+        p = copy.deepcopy(plan)
+        del p["transport"]
+        yield p
     for i in range(1, len(plan["units"])):
         p = copy.deepcopy(plan)
         del p["units"][i]
